@@ -40,6 +40,8 @@ def plan(tier, seed):
 	for L in ((6, 7, 8) if tier == 'quick' else (6, 7, 8, 9, 10)):
 		for part in range(4):
 			tasks.append(('t_chains', dict(L=L, part=part, nparts=4)))
+	for start in range(len(taxo.WORLDS)):
+		tasks.append(('t_persisted', dict(start=start, depth=3 if tier == 'quick' else 4)))
 	tasks.append(('t_report', dict(N=5 if tier == 'quick' else 6)))
 	tasks.append(('t_monotone', dict(N=4 if tier == 'quick' else 5)))
 	return tasks
@@ -157,6 +159,62 @@ def t_chains(L, part, nparts):
 	return sh
 
 
+def t_persisted(start, depth):
+	"""Histories over persisted databases that share primary keys / keys / names of their taxa but differ in shape, thresholds and report flags:
+	every sequence (to the depth bound, starting with database `start`) of {open database j and classify all distance vectors; edit thresholds of
+	the currently loaded objects and classify again} in ONE process.  State remembered about a taxon across databases, sessions or edits shows as
+	a disagreement with the model of the database actually being queried."""
+	from mc import fixtures
+	import os
+	sh = Shard()
+	nw = len(taxo.WORLDS)
+	with fixtures.workdir('c03p') as d:
+		paths = []
+		for j, w in enumerate(taxo.WORLDS):
+			p = os.path.join(d, f'w{j}.gdb')
+			taxo.write_world(p, w)
+			paths.append(p)
+		events = [('open', j) for j in range(nw)] + [('edit', 0), ('edit', 1)]
+		dvecs = list(itertools.product(DISTS, repeat=3))
+		for hist in itertools.product(events, repeat=depth - 1):
+			hist = (('open', start),) + hist
+			cur = None
+			sessions = []
+			try:
+				for step, (op, arg) in enumerate(hist):
+					if op == 'open':
+						w = taxo.WORLDS[arg]
+						session, taxa, genomes = taxo.open_world(paths[arg])
+						sessions.append(session)
+						cur = dict(parent=w['parent'], thr=list(w['thr']), report=w['report'], placement=w['placement'], taxa=taxa, genomes=genomes)
+					else:
+						# edit the thresholds of the loaded objects (in memory; the session is read-only): rotate / raise them
+						thr = cur['thr']
+						thr = thr[1:] + thr[:1] if arg == 0 else [None if t is None else min(1.0, t + 0.25) for t in thr]
+						for t_obj, v in zip(cur['taxa'], thr):
+							t_obj.distance_threshold = v
+						cur['thr'] = thr
+					for dists in dvecs:
+						before, kept = sh.nviol, len(sh.violations)
+						check_item(sh, cur['parent'], tuple(cur['thr']), cur['report'], cur['taxa'], cur['placement'], dists, cur['genomes'], stats=False)
+						if sh.nviol != before:
+							if len(sh.violations) > kept:
+								sh.violations[-1]['case']['history'] = [list(h) for h in hist[:step + 1]]
+								sh.violations[-1]['kind'] = 'persisted-' + sh.violations[-1]['kind']
+							raise StopIteration
+					sh.count('persisted_steps')
+					if step:
+						sh.nontrivial += 1
+			except StopIteration:
+				pass
+			finally:
+				for s_ in sessions:
+					s_.close()
+					s_.get_bind().dispose()
+	sh.sample(dict(family='persisted', history=[list(h) for h in hist], worlds=len(taxo.WORLDS)))
+	return sh
+
+
 def t_report(N):
 	"""user-facing taxon: every forest x every report-flag vector x every start taxon."""
 	from gambit.db import reportable_taxon
@@ -213,12 +271,15 @@ def t_monotone(N):
 
 def finalize(agg, tier):
 	for c in ('no_prediction', 'prediction_is_own_taxon', 'prediction_above_thresholdless_own_taxon', 'distance_equals_threshold',
-	          'unreportable_prediction', 'tie_for_closest', 'non_monotone_thresholds', 'three_level_coarsening', 'deep_lineage_cases'):
+	          'unreportable_prediction', 'tie_for_closest', 'non_monotone_thresholds', 'three_level_coarsening', 'deep_lineage_cases', 'persisted_steps'):
 		agg.require(c, 100)
 
 
 def replay(case, kind=None):
 	sh = Shard()
+	if 'history' in case:
+		vs = t_persisted(case['history'][0][1], len(case['history'])).violations
+		return [v for v in vs if v['case'].get('history') == case['history']][:1] or vs[:1]
 	parent = tuple(case['parent'])
 	taxa = taxo.build_taxa(parent)
 	if kind == 'reportable':
